@@ -939,7 +939,15 @@ func splitInlineBox(context *layoutContext, box_ Box, positionX, maxX, bottomSpa
 				// must fit too
 				limitX -= endSpacing
 			}
-			if newPositionX > limitX && !trailingWhitespace {
+			overflows := newPositionX > limitX && !trailingWhitespace
+			if newPositionX > limitX && (bo.InlineT.IsInstance(newChild) || (trailingWhitespace && lastRune(newChildTB.Text) == ' ')) {
+				// collapsible spaces at the end of the line take no room, also
+				// when they end an inline box: what precedes them must fit
+				if ws := newChild.Box().Style.GetWhiteSpace(); ws == "normal" || ws == "nowrap" || ws == "pre-line" || !trailingWhitespace {
+					overflows = newPositionX-trailingWhitespaceSize(context, newChild) > limitX
+				}
+			}
+			if overflows {
 				previousResumeAt := breakWaitingChildren(context, box_, bottomSpace, initialSkipStack, absoluteBoxes, fixedBoxes,
 					linePlaceholders, waitingFloats, lineChildren, &children, waitingChildren)
 				if previousResumeAt != nil {
